@@ -5,7 +5,10 @@ package props
 
 import (
 	"fmt"
+	"math/bits"
 	"sort"
+
+	"pgregory.net/rapid"
 
 	u "github.com/utreexo/utreexo"
 	"verifharness/model"
@@ -270,4 +273,51 @@ func diffSnapshot(a, b snapshot, compareHashes bool) string {
 		}
 	}
 	return ""
+}
+
+// ---- the same forest embedded at the low end of a forest with `high` more (opaque) leaves --------
+
+// genHigh draws the number of opaque leaves that precede the small forest: a power of two (or two)
+// strictly larger than the small forest can ever get, up to 2^62, or 0 for "not embedded".
+func genHigh(t *rapid.T, maxLeaves int) uint64 {
+	if rapid.IntRange(0, 2).Draw(t, "embed") == 0 {
+		return 0
+	}
+	low := bits.Len64(uint64(maxLeaves) + 1)
+	k := rapid.SampledFrom([]int{low, low + 1, 31, 32, 33, 47, 61, 62}).Draw(t, "highbit")
+	if k < low {
+		k = low
+	}
+	if rapid.IntRange(0, 3).Draw(t, "anybit") == 0 {
+		k = rapid.IntRange(low, 62).Draw(t, "highbit-any")
+	}
+	high := uint64(1) << uint(k)
+	if k < 62 && rapid.Bool().Draw(t, "morehigh") {
+		high |= uint64(1) << uint(rapid.IntRange(k+1, 62).Draw(t, "highbit2"))
+	}
+	return high
+}
+
+// highRoots are the (opaque, non-zero) roots of the trees that make up the `high` leaves.
+func highRoots(high uint64) []Hash {
+	var r []Hash
+	for b := 63; b >= 0; b-- {
+		if high&(uint64(1)<<uint(b)) != 0 {
+			r = append(r, model.FreshHash(5000+b))
+		}
+	}
+	return r
+}
+
+func embedAll(pos []uint64, small *model.View, high uint64) []uint64 {
+	out := make([]uint64, len(pos))
+	for i, p := range pos {
+		out[i] = embedPos(p, small, high)
+	}
+	return out
+}
+
+// highOK reports whether the small forest stays clear of the opaque trees (no carry into them).
+func highOK(high uint64, n uint64) bool {
+	return high == 0 || (n < high&-high && high < 1<<63)
 }
